@@ -113,7 +113,20 @@ def hoist_args(src):
     ast.fix_missing_locations(t)
     out = ast.unparse(t) + "\n"; compile(out, "f", "exec"); return out
 
-X = {"invert": invert_ifs, "logging": add_logging, "swap": swap_adjacent, "kw": keywordise, "hoist": hoist_args}
+def guard_clauses(src):
+    """`for ...: ...; if c: BODY` (if last, no else) -> `if not c: continue; BODY`."""
+    t = ast.parse(src)
+    for n in ast.walk(t):
+        if isinstance(n, (ast.For, ast.While)) and n.body and isinstance(n.body[-1], ast.If) and not n.body[-1].orelse:
+            last = n.body[-1]
+            if any(isinstance(x, (ast.Break,)) for x in ast.walk(last)):
+                pass
+            g = ast.If(test=ast.UnaryOp(op=ast.Not(), operand=last.test), body=[ast.Continue()], orelse=[])
+            n.body = n.body[:-1] + [g] + last.body
+    ast.fix_missing_locations(t)
+    out = ast.unparse(t) + "\n"; compile(out, "f", "exec"); return out
+
+X = {"invert": invert_ifs, "logging": add_logging, "swap": swap_adjacent, "kw": keywordise, "hoist": hoist_args, "guard": guard_clauses}
 which = sys.argv[1]
 base = Tree('/repo'); ov = {rel: X[which](m.src) for rel, m in base.modules.items()}
 props = sys.argv[2:] or "C03 C04 C05 C06 C07 C08 C09 C11 C12 C13 C14 C15 C16 C17 C18 C19 C20".split()
